@@ -99,7 +99,7 @@ func (s *KMSystem) Wrap(f func()) {
 	}
 	synctest.Test(T, func(*testing.T) { f() })
 }
-func (s *KMSystem) New() core.Instance   { return &kmInst{s: s, m: s.A.mk()} }
+func (s *KMSystem) New() core.Instance { return &kmInst{s: s, m: s.A.mk()} }
 
 type kmInst struct {
 	s *KMSystem
